@@ -543,3 +543,77 @@ def _mk_timer(recurring):
 
 _mk_timer(False)
 _mk_timer(True)
+
+
+# ---------------------------------------------------------------- Select: what a task asks for is what the hub is given
+# (added 2026-09-25 after seeded change C06_7: normalising non-list collections dropped a positionally given timeout, so the
+# task was never resumed on time)
+
+class SelHub(object):
+  def registerSelect(self, task, rlist=None, wlist=None, xlist=None, timeout=None, timer_absolute=False):
+    LOG.append(("select", task, rlist, wlist, xlist, timeout, timer_absolute))
+
+
+class SelectLogger(CallSpec):
+  """registerSelect(task, rlist, wlist, xlist, timeout) recorded with its keyword arguments put in their positions"""
+  def __init__(self):
+    CallSpec.__init__(self, "contract", envelope="the hub records the request")
+
+  def apply(self, I, f, args, kws, st, ctx, k, node):
+    a = list(args[1:]) + [None] * 6
+    for i, n in enumerate(("task", "rlist", "wlist", "xlist", "timeout", "timer_absolute")):
+      if n in kws:
+        a[i] = kws[n]
+    if a[5] is None:
+      a[5] = False
+    st.ghost["log"] = tuple(st.ghost.get("log", ())) + (("select",) + tuple(a[:6]),)
+    return k(st, None)
+
+
+def _mk_select(shape, how):
+  def u(b):
+    hub = b.raw_new(SelHub)
+    if b.mode == "sym":
+      b.st.ghost["log"] = ()
+    else:
+      del LOG[:]
+    s = b.raw_new(Scheduler, _ready=b.deque([]), _selectHub=hub, _hasQuit=False, _allDone=False, _thread=None)
+    t0 = b.raw_new(BaseTask, priority=1, id=0)
+    fa, fb = b.raw_new(Thread), b.raw_new(Thread)           # two waitable objects
+    timeout = b.real("timeout", 0, 1000)
+    mk = {"list": lambda xs: b.list(xs) if b.mode == "sym" else list(xs), "tuple": lambda xs: tuple(xs),
+          "set1": lambda xs: (b.set_of(xs[:1]) if b.mode == "sym" else set(xs[:1])), "none": lambda xs: None}
+    colls = [mk[k]([fa, fb]) for k in shape]
+    members = [None if k == "none" else ([fa] if k == "set1" else [fa, fb]) for k in shape]
+    cs = {"contracts.c06_scheduler:SelHub.registerSelect": SelectLogger()} if b.mode == "sym" else {}
+    def run(s):
+      if how == "positional":
+        op = R.Select(colls[0], colls[1], colls[2], timeout)
+      elif how == "keyword":
+        op = R.Select(colls[0], colls[1], colls[2], timeout=timeout)
+      else:
+        op = R.Select(colls[0], colls[1], colls[2])
+      return op.execute(t0, s)
+    def same(got, want):
+      if want is None:
+        return got is None
+      return type(got) is list and len(got) == len(want) and all([g is w for g, w in zip(got, want)])
+    def ok():
+      l = log(b)
+      if len(l) != 1:
+        return False
+      e = l[0]
+      want_t = None if how == "absent" else timeout
+      return e[0] == "select" and e[1] is t0 and same(e[2], members[0]) and same(e[3], members[1]) and same(e[4], members[2]) \
+        and ((e[5] is None) if want_t is None else e[5] == want_t)
+    return Case(run, [s], calls=cs, raises={}, ensures={
+      "the_hub_gets_the_three_collections_as_lists_with_the_same_members_and_the_same_timeout": lambda res: ok(),
+    })
+  u.__name__ = "select_passes_on_%s_timeout_%s" % ("_".join(shape), how)
+  u.bound = "two waitable objects"
+  unit(P, target=RC + "Select.__init__ / Select.execute")(u)
+
+
+for _shape in (("list", "list", "list"), ("tuple", "none", "list"), ("set1", "tuple", "none"), ("list", "none", "tuple")):
+  for _how in ("positional", "keyword", "absent"):
+    _mk_select(_shape, _how)
